@@ -6,7 +6,7 @@ CONSTANTS MaxSeg = 2
           Schemes = {"hash", "path"}
           Depth = 0
           Trees <- GenTrees
-INVARIANTS TypeOK DataClosed CanonHasHeads CanonLinkedToHead StaleIsLeftover HeadOrder HeadStateAvail LookupComplete LookupSound
+INVARIANTS TypeOK DataClosed CanonHasHeads CanonLinkedToHead CanonLinkedPending CanonEndsAtHeadPending HeadOrder HeadStateAvail LookupCompletePending LookupSoundPending CacheCoherentPending
 PROPERTIES EventsDescribeSwitchPending AddedLogsCanonical RemovedWereCanonical HeadEventIsHead
 VIEW View
 CHECK_DEADLOCK FALSE
